@@ -41,6 +41,11 @@ pub struct Case {
     /// the contract store answers "nothing found" with Ok(empty) instead of Err(NoCredentials)
     #[serde(default)]
     pub empty_ok: bool,
+    /// assertions: the authenticator has hmac-secret, every stored credential has secrets, and the
+    /// request carries PRF inputs per credential for ALL ids of the universe and an unknown one
+    /// (whatever the allow list names) – the extension's inputs must not widen the allow list
+    #[serde(default)]
+    pub prf: bool,
 }
 
 fn hinted(ids: &Option<Vec<Vec<u8>>>, hints: u8) -> Option<Vec<passkey_types::webauthn::PublicKeyCredentialDescriptor>> {
@@ -124,9 +129,12 @@ pub fn cases(tier: Tier) -> Vec<Case> {
                     for op in ["assert", "register"] {
                         let hs: &[u8] = if list.as_ref().map_or(true, |l| l.is_empty()) { &[0] } else { &[0, 1, 2, 3, 4] };
                         for &hints in hs {
-                            v.push(Case { content, newest_first, rp, list: list.clone(), op: op.into(), hints, empty_ok: false });
+                            v.push(Case { content, newest_first, rp, list: list.clone(), op: op.into(), hints, empty_ok: false, prf: false });
                             if hints == 0 {
-                                v.push(Case { content, newest_first, rp, list: list.clone(), op: op.into(), hints, empty_ok: true });
+                                v.push(Case { content, newest_first, rp, list: list.clone(), op: op.into(), hints, empty_ok: true, prf: false });
+                                if op == "assert" && list.as_ref().map_or(true, |l| l.len() <= 3) {
+                                    v.push(Case { content, newest_first, rp, list: list.clone(), op: op.into(), hints, empty_ok: false, prf: true });
+                                }
                             }
                         }
                     }
@@ -135,7 +143,7 @@ pub fn cases(tier: Tier) -> Vec<Case> {
                     if s.contains("Option") && content.count_ones() > 1 {
                         continue;
                     }
-                    v.push(Case { content, newest_first: false, rp, list: list.clone(), op: format!("store:{s}"), hints: 0, empty_ok: false });
+                    v.push(Case { content, newest_first: false, rp, list: list.clone(), op: format!("store:{s}"), hints: 0, empty_ok: false, prf: false });
                 }
             }
         }
@@ -146,13 +154,22 @@ pub fn cases(tier: Tier) -> Vec<Case> {
 fn eval_authenticator(c: &Case) -> (Vec<Finding>, String) {
     let case = serde_json::to_value(c).unwrap();
     let mut fs = vec![];
-    let mut rs = RefStore::with(content_items(c.content));
+    let mut items = content_items(c.content);
+    if c.prf {
+        for (k, p) in items.iter_mut().enumerate() {
+            p.extensions.hmac_secret = Some(passkey_types::StoredHmacSecret { cred_with_uv: vec![0x10 + k as u8; 32], cred_without_uv: Some(vec![0x20 + k as u8; 32]) });
+        }
+    }
+    let mut rs = RefStore::with(items);
     rs.newest_first = c.newest_first;
     rs.empty_ok = c.empty_ok;
     let reference = rs.clone();
     let store = Shared::new(rs);
     let log = Log::new();
     let mut auth = Authenticator::new(Aaguid::new_empty(), Logging { inner: store.clone(), log: log.clone() }, ScriptedUv::consenting(log.clone()));
+    if c.prf {
+        auth = auth.hmac_secret(passkey_authenticator::extensions::HmacSecretConfig::new_without_uv());
+    }
     let rp = RPS[c.rp as usize];
     let ids = list_ids(&c.list);
     let before = store.recs();
@@ -163,7 +180,12 @@ fn eval_authenticator(c: &Case) -> (Vec<Finding>, String) {
     let mut bad = |kind: &str, d: String| fs.push(Finding::new(format!("op={}/kind={kind}", c.op), d, case.clone()));
     let outcome;
     if c.op == "assert" {
-        let mut req = ga_request(rp, ids.clone(), false, true, true, false, None);
+        let ext = c.prf.then(|| {
+            use passkey_types::ctap2::extensions::{AuthenticatorPrfInputs, AuthenticatorPrfValues};
+            let by: std::collections::HashMap<passkey_types::Bytes, AuthenticatorPrfValues> = (0..4u8).map(ident).chain([ident(UNKNOWN)]).map(|id| (id.into(), AuthenticatorPrfValues { first: [7; 32], second: None })).collect();
+            passkey_types::ctap2::get_assertion::ExtensionInputs { hmac_secret: None, prf: Some(AuthenticatorPrfInputs { eval: Some(AuthenticatorPrfValues { first: [6; 32], second: None }), eval_by_credential: Some(by) }) }
+        });
+        let mut req = ga_request(rp, ids.clone(), false, true, true, false, ext);
         req.allow_list = hinted(&ids, c.hints);
         match par::catch(|| block_on(auth.get_assertion(req))) {
             Err(p) => {
@@ -459,7 +481,7 @@ pub fn run(ctx: &Ctx) -> Result<Run, String> {
     let n = cs.len() as u64 + csched;
     let mut run = Run::from_stats(
         "model_checking",
-        "universe of 4 credentials (2 RPs x 2, equal user handles across RPs): all 16 store contents x RP in {a, b, RP without credentials, a in another letter case, a with a trailing dot} x lists {absent, empty, sub-lists of the 4 ids + 1 unknown id (size <= 2 in both orders quick, all 31 thorough), and ids in a value relation to a held id (a strict prefix of it, it plus one byte, the empty id) alone and next to each of the 4 ids, and lists of 64..129 entries in which a held id sits behind, in front of or between runs of 64 unknown ids} x transports hints on the descriptors {none, disjoint from the authenticator's, overlapping, mixed, empty} x listing order {newest, oldest first} for get_assertion (allow list) and make_credential (exclude list) on the real Authenticator over the contract store; and the same contents/lists/RPs against find_credentials of MemoryStore, Option<Passkey> and their four lock wrappers (wrappers compared with the store they wrap); plus every interleaving of a registration whose exclude list names a held credential with a concurrent assertion over Arc<Mutex<_>> and Arc<RwLock<_>> (must be refused in every schedule). Non-trivial = distinct case with a non-empty store",
+        "universe of 4 credentials (2 RPs x 2, equal user handles across RPs): all 16 store contents x RP in {a, b, RP without credentials, a in another letter case, a with a trailing dot} x lists {absent, empty, sub-lists of the 4 ids + 1 unknown id (size <= 2 in both orders quick, all 31 thorough), and ids in a value relation to a held id (a strict prefix of it, it plus one byte, the empty id) alone and next to each of the 4 ids, and lists of 64..129 entries in which a held id sits behind, in front of or between runs of 64 unknown ids} x transports hints on the descriptors {none, disjoint from the authenticator's, overlapping, mixed, empty} x {no extension, PRF inputs per credential naming every id of the universe on an hmac-secret authenticator} x listing order {newest, oldest first} for get_assertion (allow list) and make_credential (exclude list) on the real Authenticator over the contract store; and the same contents/lists/RPs against find_credentials of MemoryStore, Option<Passkey> and their four lock wrappers (wrappers compared with the store they wrap); plus every interleaving of a registration whose exclude list names a held credential with a concurrent assertion over Arc<Mutex<_>> and Arc<RwLock<_>> (must be refused in every schedule). Non-trivial = distinct case with a non-empty store",
         true,
         stats,
     );
